@@ -145,3 +145,13 @@ claim("C02", "exploration",
       "arguments must be unchanged, 60 s watchdog.",
       "Annealer horizon cut by on_temperature_change; C kernel random stream only selectable by seed; machines <= 3x3 (thorough 5x5).",
       "DESIGN.md section 4, C02")
+claim("C01", "exploration",
+      "Part A: for machines 2x1/2x2/3x2 (thorough 3x3) as torus and mesh with <=1 dead chip and <=1 (2) dead directed links, seven (nine) "
+      "graphs incl. device vertices with route-endpoint constraints, self loops and repeated sinks, EVERY feasible placement is pushed "
+      "through allocate -> route (radius 0/1/20, owned tie-breaks) -> routing_tree_to_tables -> minimise_tables (methods x targets) and a "
+      "packet is walked for every net (two concrete keys when masks have don't-cares) through the final tables: first match, default "
+      "routing, only working links/chips, no drop, no circulation, deliveries = allocated sink cores / endpoint links exactly once. "
+      "Part 'many': 4-6 nets through one chip x all 2^n destination patterns x all placements. Part B: both wrappers x seven placers "
+      "from a SystemInfo (busy cores, dead chips/links, tiny free router blocks) incl. one probed from the simulated machine.",
+      "Hardware routing semantics (first match, default routing) restated in /verif; graphs <= 4 vertices; machines <= 3x3.",
+      "DESIGN.md section 4, C01")
